@@ -420,7 +420,10 @@ def impl_eval(sep, ex, case):
         res, out = ("exc", type(e).__name__), None
     finally:
         sep.hashlib = old
-    unchanged = (cj(i) == cj(case["input"]) and cj(c) == cj(case["ctx"]) and pj(t) == pj(case["template"]))
+    try:
+        unchanged = (cj(i) == cj(case["input"]) and cj(c) == cj(case["ctx"]) and pj(t) == pj(case["template"]))
+    except (TypeError, ValueError, RecursionError):
+        unchanged = False        # the evaluation left something unserialisable (a cycle, say) in its arguments: modified
     return res, out, unchanged, rec.table
 
 
